@@ -1,4 +1,5 @@
 import Gleece.Properties.C10
+import Gleece.Properties.Link
 #print axioms Gleece.Validate.returns_sound
 #print axioms Gleece.Validate.linkValidate_nil_parts
 #print axioms Gleece.Validate.params_referenced
@@ -12,3 +13,10 @@ import Gleece.Properties.C10
 #print axioms Gleece.Validate.link_injective
 #print axioms Gleece.Validate.link_bijection_partial
 #print axioms Gleece.Validate.unaliased_outside_route_is_accepted
+#print axioms Gleece.Link.binding_rows
+#print axioms Gleece.Link.findFirst_of_mem
+#print axioms Gleece.Link.path_annotation_reduced
+#print axioms Gleece.Link.reduced_path_has_annotation
+#print axioms Gleece.Link.reduceRoute_names
+#print axioms Gleece.Link.reduced_path_required
+#print axioms Gleece.Link.accepted_route_path_params_partial
